@@ -26,7 +26,7 @@ theorem polysFrom_denoteFrom (ρ : Nat → Rat) (prog : RProg) (ps : List Poly) 
     simp only [polysFrom, denoteFrom]
     rw [ih]
     congr 1
-    simp [eval_nodePoly]
+    simp [eval_nodePoly, eval_collect]
 
 theorem polys_denote (ρ : Nat → Rat) (prog : RProg) :
     (polys prog).map (Poly.eval ρ) = denote ρ prog := by
